@@ -162,14 +162,14 @@ def campaign(c, ctx, r, nprogs, mask, tier, want_stats=False, variants=("pred", 
     return progs, runs
 
 
-def worker_report(c, runs):
+def worker_report(c, runs, quiet_if_violations=False):
     """reports a broken op-by-op correspondence between process.c / fossil.c and the worker model; returns coverage numbers"""
     nops, nruns = 0, 0
     for run_ in runs:
         if run_.get("worker_ops"):
             nruns += 1
             nops += run_["worker_ops"]
-        if run_.get("worker_diff") and not any(v[0] in ("worker-correspondence", "lp-level-result-differs") for v in c.violations):
+        if run_.get("worker_diff") and not (quiet_if_violations and c.violations) and not any(v[0] in ("worker-correspondence", "lp-level-result-differs") for v in c.violations):
             # the worker model no longer describes process.c / fossil.c: is the same script already a failing input?  The script ends by
             # running the queue out, so every LP's final digest must be the sequential one (C01 / C05 at LP level)
             res, pr = run_["res"], run_["prog"]
